@@ -218,6 +218,131 @@ Section Run.
     sdr st -> reduce_at_spec o u st p pt orc = Some (st', cont, orc') -> okf st' = true -> sdr st'.
   Proof. intros S E Hok. destruct (reduce_at_spec_pres _ _ _ _ _ _ _ E) as (_ & P & _). now apply P. Qed.
 
+  (* ---------- a step never panics on valid pivots ---------- *)
+  Lemma tri_inv_dims t a r X : tri_inv o u t a r = Some X -> dr X = r /\ dc X = r.
+  Proof.
+    destruct t; cbn [tri_inv]; unfold inv_lower.
+    - destruct (inv_rows o u (dtrans o a) r r); [|discriminate]. cbn [obind]. intros [= <-]. split; reflexivity.
+    - destruct (inv_rows o u a r r); [|discriminate]. cbn [obind]. intros [= <-]. split; reflexivity.
+  Qed.
+
+  Lemma omap_some {A B} (f : A -> option B) (P : A -> Prop) l :
+    (forall x, P x -> exists y, f x = Some y) -> Forall P l -> exists l', omap f l = Some l'.
+  Proof.
+    intros H HF. induction HF as [|x l Hx HF IH]; cbn [omap]; [eauto|].
+    destruct (H x Hx) as [y ->]. destruct IH as [ys ->]. cbn [obind]. eauto.
+  Qed.
+
+  Lemma nodup_bound n l : NoDup l -> Forall (fun x => x < n) l -> length l <= n.
+  Proof.
+    intros H1 H2. rewrite <- (seq_length n 0). apply NoDup_incl_length; [exact H1|].
+    intros x Hx. rewrite Forall_forall in H2. apply in_seq. specialize (H2 x Hx). lia.
+  Qed.
+
+  Theorem reduce_with_some st p a1 pt pivs :
+    sdr st -> mats st p = Some a1 ->
+    NoDup (map fst pivs) -> Forall (fun i => i < dr a1) (map fst pivs) ->
+    NoDup (map snd pivs) -> Forall (fun j => j < dc a1) (map snd pivs) ->
+    (forall vp vq, perm_order (dr a1) (map fst pivs) = Some vp -> perm_order (dc a1) (map snd pivs) = Some vq ->
+       unit_diag o u (dblock o (permute o a1 vp vq) 0 0 (length pivs) (length pivs)) (length pivs)) ->
+    exists st' cont, reduce_with o u st p a1 pt pivs = Some (st', cont).
+  Proof.
+    intros [g I] Ha Hn1 Hf1 Hn2 Hf2 Hu. unfold reduce_with. cbv zeta.
+    destruct (perm_order_some _ _ Hn1 Hf1) as [vp Evp]. destruct (perm_order_some _ _ Hn2 Hf2) as [vq Evq].
+    rewrite Evp, Evq. cbn [obind]. specialize (Hu vp vq Evp Evq).
+    destruct (length pivs =? 0); [eauto|].
+    destruct (perm_order_spec _ _ _ Evp) as (Hvp & _). destruct (perm_order_spec _ _ _ Evq) as (Hvq & _).
+    pose proof (perm_length _ _ Hvp) as Lvp. pose proof (perm_length _ _ Hvq) as Lvq.
+    set (r := length pivs) in *. set (t := ttype_of pt).
+    assert (Hrm : r <= dr a1). { unfold r. rewrite <- (map_length fst). now apply nodup_bound. }
+    assert (Hrn : r <= dc a1). { unfold r. rewrite <- (map_length snd). now apply nodup_bound. }
+    assert (HpM : p < M).
+    { destruct (Nat.lt_ge_cases p M) as [H|H]; [exact H|]. rewrite (inv_none _ _ _ _ _ _ _ I p H) in Ha. discriminate. }
+    destruct (inv_mats _ _ _ _ _ _ _ I p HpM) as (d & Ed & W1 & Hm & Hn). rewrite Ha in Ed. injection Ed as <-.
+    (* the Schur complement *)
+    unfold schur_of. rewrite dr_permute, dc_permute.
+    destruct (Nat.leb_spec r (dr a1)); [|lia]. destruct (Nat.leb_spec r (dc a1)); [|lia]. cbn [andb].
+    destruct (tri_inv_some o u UL t (dblock o (permute o a1 vp vq) 0 0 r r) r eq_refl eq_refl Hu) as [X EX].
+    rewrite EX. cbn [obind]. destruct (tri_inv_dims _ _ _ _ EX) as (HXr & HXc).
+    match goal with |- context [mkS ?s0 ?ai ?aib ?cai ?c0] => set (sc := mkS s0 ai aib cai c0) end.
+    (* update_mats *)
+    assert (Emats : exists ms, update_mats o (mats st) p vp vq r (sc_s sc) = Some ms).
+    { unfold update_mats.
+      assert (E1 : exists ms1, match p with
+                   | O => Some (mats st)
+                   | S p0 => match mats st p0 with
+                             | None => Some (mats st)
+                             | Some a0 => if dr a0 =? length vq
+                                          then Some (fupd (mats st) p0 (Some (reduce_mat_rows o a0 vq r))) else None
+                             end
+                   end = Some ms1 /\ ms1 (S p) = mats st (S p)).
+      { destruct p as [|p0]; [eauto|].
+        destruct (mats st p0) as [a0|] eqn:Ea0; [|eauto].
+        destruct (inv_mats _ _ _ _ _ _ _ I p0 ltac:(lia)) as (d & Ed & _ & Hr0 & _). rewrite Ea0 in Ed. injection Ed as <-.
+        destruct (Nat.eqb_spec (dr a0) (length vq)) as [_|Hne]; [|exfalso; apply Hne; congruence].
+        eexists. split; [reflexivity|]. apply fupd_neq. lia. }
+      destruct E1 as (ms1 & -> & E2). cbn [obind]. rewrite fupd_neq by lia. rewrite E2.
+      destruct (mats st (S p)) as [a2|] eqn:Ea2; [|eauto].
+      assert (HS : S p < M).
+      { destruct (Nat.lt_ge_cases (S p) M) as [H'|H']; [exact H'|]. rewrite (inv_none _ _ _ _ _ _ _ I _ H') in Ea2. discriminate. }
+      destruct (inv_mats _ _ _ _ _ _ _ I (S p) HS) as (d & Ed & _ & _ & Hc2). rewrite Ea2 in Ed. injection Ed as <-.
+      destruct (Nat.eqb_spec (dc a2) (length vp)) as [_|Hne]; [eauto|exfalso; apply Hne; congruence]. }
+    destruct Emats as [ms ->]. cbn [obind].
+    (* update_trans *)
+    assert (Etrans : exists ts, (if is_some (trs st p) || is_some (trs st (S p))
+                                 then do t_s <- schur_t_src o (dc a1) r sc; do t_t <- schur_t_tgt o (dr a1) r sc;
+                                      update_trans o (trs st) p vp vq t_s t_t
+                                 else Some (trs st)) = Some ts).
+    { destruct (is_some (trs st p) || is_some (trs st (S p))); [|eauto].
+      unfold schur_t_src, schur_t_tgt, t_new. subst sc. cbn [sc_ainvb sc_cainv]. autorewrite with ddim.
+      rewrite HXr, HXc.
+      destruct (Nat.eqb_spec (dc a1) (r + (dc a1 - r))); [|lia]. rewrite Nat.eqb_refl. cbn [andb obind].
+      destruct (Nat.eqb_spec (r + (dr a1 - r)) (dr a1)); [|lia]. rewrite Nat.eqb_refl. cbn [andb obind].
+      unfold update_trans.
+      assert (E1 : forall (q : nat) (v : list nat) (ts0 : trans R), length v = gn g q -> t_src ts0 = gn g q ->
+                 forall t1, trs st q = Some t1 -> exists t1'', (do t1' <- t_append_perm o t1 v; t_merge o t1' ts0) = Some t1'').
+      { intros q v ts0 Hl Hs t1 Et1. destruct (inv_trs _ _ _ _ _ _ _ I q t1 Et1) as (_ & ->).
+        unfold t_append_perm, t_append. cbn [t_tgt t_src t_f t_b]. autorewrite with ddim.
+        rewrite Hl, !Nat.eqb_refl. cbn [andb obind]. unfold t_merge. cbn [t_tgt t_src t_f t_b]. autorewrite with ddim.
+        rewrite ?Hl, Hs, Nat.eqb_refl. eauto. }
+      destruct (trs st p) as [t1|] eqn:Et1.
+      - destruct (E1 p vq (mkT (dc a1) (dc a1 - r) (proj o (dc a1) (dc a1 - r))
+                   (dvcat o (dneg o (dmul o X (dblock o (permute o a1 vp vq) 0 r r (dc a1 - r)))) (did o (dc a1 - r))))
+                   ltac:(congruence) ltac:(cbn [t_src]; congruence) t1 Et1) as [t1'' E1''].
+        destruct (t_append_perm o t1 vq) as [t1'|]; [|discriminate]. cbn [obind] in E1''. cbn [obind]. rewrite E1''. cbn [obind].
+        rewrite fupd_neq by lia.
+        destruct (trs st (S p)) as [t2|] eqn:Et2; [|eauto].
+        destruct (E1 (S p) vp (mkT (r + (dr a1 - r)) (dr a1 - r)
+                     (dhcat o (dneg o (dmul o (dblock o (permute o a1 vp vq) r 0 (dr a1 - r) r) X)) (did o (dr a1 - r)))
+                     (incl o (dr a1) (dr a1 - r))) ltac:(congruence) ltac:(cbn [t_src]; lia) t2 Et2) as [t2'' E2''].
+        destruct (t_append_perm o t2 vp) as [t2'|]; [|discriminate]. cbn [obind] in E2''. cbn [obind]. rewrite E2''. cbn [obind].
+        eauto.
+      - cbn [obind].
+        destruct (trs st (S p)) as [t2|] eqn:Et2; [|eauto].
+        destruct (E1 (S p) vp (mkT (r + (dr a1 - r)) (dr a1 - r)
+                     (dhcat o (dneg o (dmul o (dblock o (permute o a1 vp vq) r 0 (dr a1 - r) r) X)) (did o (dr a1 - r)))
+                     (incl o (dr a1) (dr a1 - r))) ltac:(congruence) ltac:(cbn [t_src]; lia) t2 Et2) as [t2'' E2''].
+        destruct (t_append_perm o t2 vp) as [t2'|]; [|discriminate]. cbn [obind] in E2''. cbn [obind]. rewrite E2''. cbn [obind].
+        eauto. }
+    destruct Etrans as [ts ->]. cbn [obind].
+    (* update_vecs *)
+    assert (Evecs : exists vs, update_vecs o (vcs st) p vp vq r sc = Some vs).
+    { unfold update_vecs.
+      assert (F1 : Forall (fun v => length v = length vq) (vcs st p)).
+      { pose proof (inv_vcs _ _ _ _ _ _ _ I p ltac:(lia)) as HF. clear - HF Lvq Hn.
+        induction HF as [|v v0 l l0 [Hl _] _ IH]; constructor; [congruence|exact IH]. }
+      assert (F2 : Forall (fun v => length v = length vp) (vcs st (S p))).
+      { pose proof (inv_vcs _ _ _ _ _ _ _ I (S p) ltac:(lia)) as HF. clear - HF Lvp Hm.
+        induction HF as [|v v0 l l0 [Hl _] _ IH]; constructor; [congruence|exact IH]. }
+      assert (G1 : forall v, length v = length vq -> exists w, vec_src o vq r (length vq) v = Some w).
+      { intros v Hv. unfold vec_src. rewrite Hv, Nat.eqb_refl. eauto. }
+      assert (G2 : forall v, length v = length vp -> exists w, vec_tgt o vp r (length vp) sc v = Some w).
+      { intros v Hv. unfold vec_tgt. rewrite Hv, Nat.eqb_refl. eauto. }
+      destruct (omap_some _ _ _ G1 F1) as [v1 ->]. cbn [obind]. rewrite fupd_neq by lia.
+      destruct (omap_some _ _ _ G2 F2) as [v2 ->]. cbn [obind]. eauto. }
+    destruct Evecs as [vs ->]. cbn [obind]. eauto.
+  Qed.
+
   (* ---------- the invariant spelled out ---------- *)
   Definition sdr_explicit (st : state) : Prop :=
     exists (n : nat -> nat) (F B H : nat -> dmat),
